@@ -24,6 +24,7 @@ class C02(MotionMonitor):
                                  spell=True, p_arc=0.1)),
                (3, "avoided-with-toggles", mk(arcs=True, arcs_rel=True, rel=True, at=True, avoid=True, p_inside=0.0, margin=0.05,
                                               p_arc=0.2, p_at=0.1, start_rel=0.8)),
+               (2, "inside-only-while-disabled", mk(rel=True, at=True, p_inside=0.0, p_inside_disabled=0.6, margin=0.05, p_at=0.15)),
                (1, "avoided-firmware", mk(fw=True, arcs=True, arcs_rel=True, rel=True, avoid=True, p_inside=0.0, retmove=True)),
                (2, "avoided-with-homing", mk(rel=True, inch=True, avoid=True, p_inside=0.0, margin=0.05, g28mid=True, start_rel=0.5,
                                              boost=0.06))]
